@@ -7,7 +7,8 @@ def run(ctx):
     ctx.assumptions += [
         "sample values are integers; expected ESS = m n Vn / (2 Out - Vn) from exact integers computed by TLC",
         "rule U: arrays where a visited Geyer pair is within 2^-12 var+ of zero are skipped for the ESS value (f32 may cut either side)",
-        "f32/FFT tolerance 2^-14 relative on ESS (4x the R-hat tolerance)",
+        "f32/FFT tolerance 2^-14 relative on ESS (4x the R-hat tolerance), multiplied by the condition number max(1, |ESS| / (m n)) = 1/|tau| "
+        "(tau close to zero magnifies the rounding of the autocorrelations: ESS of 1092 for 12 draws)",
         "'about N(1-phi)/(1+phi)' / 'about N for independent draws' are asymptotic and not asserted; the definition is",
     ]
     sc.run_small(ctx, ["t1", "t3", "t4", "q4"] if thorough else ["q2", "q3", "q4"], "ess")
